@@ -23,6 +23,7 @@ package ecdsa
 //@ layer bigint big.Int
 //@ option field fr
 //@ option nomerge
+//@ option inline
 //@ ensures[accept] isnil(result1) ==> len(buf) == 2*sizeFr && 0 < be(buf[0:sizeFr]) && be(buf[0:sizeFr]) < q && 0 < be(buf[sizeFr:2*sizeFr]) && be(buf[sizeFr:2*sizeFr]) < q
 //@ ensures[complete] len(buf) == 2*sizeFr && 0 < be(buf[0:sizeFr]) && be(buf[0:sizeFr]) < q && 0 < be(buf[sizeFr:2*sizeFr]) && be(buf[sizeFr:2*sizeFr]) < q ==> isnil(result1)
 //@ ensures[count] isnil(result1) ==> result0 == 2*sizeFr
@@ -33,7 +34,7 @@ package ecdsa
 //@ func PublicKey.Verify
 //@ layer bigint big.Int ring fp.Element
 //@ option field fr
-//@ option distribute
+//@ option split-post
 //@ option nomerge
 //@ option opaque HashToInt JointScalarMultiplicationBase
 //@ ghost m = 0
@@ -50,9 +51,13 @@ package ecdsa
 //@ + ghost onkey = same(callarg1, &publicKey.A)
 //@ + ghost ux = callarg0.X
 //@ + ghost uz = callarg0.Z
-//@ ghost-final r = be(sigBin[0:sizeFr])
-//@ ghost-final s = be(sigBin[sizeFr:2*sizeFr])
-//@ ensures[decoded] isnil(result1) ==> len(sigBin) == 2*sizeFr && 0 < r && r < q && 0 < s && s < q
+//@ ghost r = 0
+//@ ghost s = 0
+//@ cut after call SetBytes #2
+//@ + ghost r = *callarg0
+//@ cut after call SetBytes #3
+//@ + ghost s = *callarg0
+//@ ensures[decoded] isnil(result1) ==> len(sigBin) == 2*sizeFr && r == be(sigBin[0:sizeFr]) && s == be(sigBin[sizeFr:2*sizeFr]) && 0 < r && r < q && 0 < s && s < q
 //@ ensures[refused] !isnil(result1) ==> !result0
 //@ ensures[scalars] isnil(result1) ==> onkey && u1 == bigmod(m * bigmodinv(s, q), q) && u2 == bigmod(r * bigmodinv(s, q), q)
 //@ ensures[equation] isnil(result1) ==> result0 == (bigmod(toint(ux * inv(uz * uz)), q) == r)
